@@ -55,6 +55,11 @@ func runWriteToSim(c *Ctx, ruleClose, ruleCount, rulePromo, ruleSize, ruleDelta 
 		{{0x81, []Val{k8(0x91), data("k1"), data("v1")}}, {0x4000, eot}},                                    // closed; two- and three-byte deltas
 		{{0x05, []Val{k8(0x82), data("k2"), data("v2")}}},                                                   // open: must be closed by WriteTo
 		{{0x00, []Val{k8(0xC3), data("p3")}}, {0x7F, []Val{k8(0xB3), data("c3"), data("w3")}}, {0x00, eot}}, // closed
+		// closed; the remaining kinds of events a file can hold: poly and channel pressure, pitch bend, a text meta event,
+		// a complete sysex and an F7 (escape / continuation) packet — a writer that drops or re-frames one kind shows here
+		{{0x03, []Val{k8(0xA4), data("k4"), data("v4")}}, {0x00, []Val{k8(0xD5), data("p5")}}, {0x02, []Val{k8(0xE6), data("l6"), data("m6")}},
+			{0x00, []Val{k8(0xFF), k8(0x01), k8(0x02), data("t1"), data("t2")}}, {0x01, []Val{k8(0xF0), data("x1"), data("x2"), k8(0xF7)}},
+			{0x00, []Val{k8(0xF7), data("y1")}}, {0x05, eot}},
 	}
 	var tvals []Val
 	for _, tr := range tracks {
@@ -123,6 +128,15 @@ func runWriteToSim(c *Ctx, ruleClose, ruleCount, rulePromo, ruleSize, ruleDelta 
 		var b []Val
 		for _, e := range tr {
 			b = append(b, vlqConst(e.delta)...)
+			if c0, isK := e.msg[0].(*IntV); isK {
+				if v, _ := st.ConstOf(c0); v == 0xF0 || v == 0xF7 {
+					// SMF framing of sysex / escape events: status, length of what follows as VLQ, the bytes
+					b = append(b, e.msg[0])
+					b = append(b, vlqConst(int64(len(e.msg)-1))...)
+					b = append(b, e.msg[1:]...)
+					continue
+				}
+			}
 			b = append(b, e.msg...)
 		}
 		if autoClose {
@@ -155,7 +169,8 @@ func runWriteToSim(c *Ctx, ruleClose, ruleCount, rulePromo, ruleSize, ruleDelta 
 			}
 		}
 		if ev == nil || !ev.Nil {
-			continue // a destination failure
+			// a destination failure (what is reported as size then is not part of the statement)
+			continue
 		}
 		nSuccess++
 		ws := ex.writesOf(o)
@@ -260,7 +275,7 @@ func runWriteToSim(c *Ctx, ruleClose, ruleCount, rulePromo, ruleSize, ruleDelta 
 	if nSuccess == 0 {
 		vCount = verdict{false, "no successful outcome of WriteTo on the representative file"}
 	}
-	desc := fmt.Sprintf("representative file: 3 tracks (closed, open, closed), symbolic format 0..2, arbitrary cached count, %d successful partition(s)", nSuccess)
+	desc := fmt.Sprintf("representative file: 4 tracks (closed, open, closed, closed; all seven channel kinds, meta, sysex, F7 packet), symbolic format 0..2, arbitrary cached count, %d successful partition(s)", nSuccess)
 	if ruleClose != "" {
 		c.Check(vClose.ok && nSuccess > 0, ruleClose, "WriteTo closes open tracks, and only those (whole-file simulation)", p.Pos(wt.Pos()), desc, vClose.why)
 	}
